@@ -15,11 +15,11 @@ use serde_json::json;
 pub const SPEC: PropSpec = PropSpec {
 	id: "C13",
 	level: "exploration",
-	rule: "case = record schema (nested records, records in arrays/maps/unions, null and union-with-null fields anywhere) + conforming value; the reference encoding in schema order is the oracle (byte-exact). Presentations: every permutation of the root record's fields when it has <= 5 fields (else 40 sampled), nested records permuted independently per presentation, every subset of omissible (null / union-with-null holding null) root fields, as struct / struct variant / map with serialize_entry / map with split key+value; then injections at every position of the root field list: a duplicate of each field (before and after its turn), an unknown field, removal of a required field - all must give Err. distinct by hash(schema shape, value bytes, presentation)",
+	rule: "case = record schema (nested records, records in arrays/maps/unions, null and union-with-null fields anywhere) + conforming value; the reference encoding in schema order is the oracle (byte-exact). Presentations: every permutation of the root record's fields when it has <= 5 fields (else 40 sampled), nested records permuted independently per presentation, every subset of omissible (null / union-with-null holding null) root fields, as struct / struct variant / map with serialize_entry / map with split key+value; in a third of the cases byte strings are presented as u8 sequences of unknown length (allow_slow_sequence_to_bytes on); then injections at every position of the root field list: a duplicate of each field (before and after its turn), an unknown field, removal of a required field - all must give Err. distinct by hash(schema shape, value bytes, presentation)",
 	assumptions: &["collections are presented with exact length hints, so the layout of the expected encoding is determined"],
 	cases: (50_000_000, 4_000_000_000),
 	secs: (30, 600),
-	required: &["permutations_equal", "omissions_equal", "duplicate_rejected", "unknown_rejected", "missing_required_rejected", "nested_out_of_order"],
+	required: &["cases_with_bytes_as_unsized_sequences", "permutations_equal", "omissions_equal", "duplicate_rejected", "unknown_rejected", "missing_required_rejected", "nested_out_of_order"],
 	run_case,
 	once: None,
 	panics_are_violations: true,
@@ -115,6 +115,7 @@ fn build(
 			let inner = build(rs, bs[*i], x, rng, None, shuffle_nested, nested_ooo);
 			Call::NewtypeVariant(rs.branch_name(bs[*i]), Box::new(inner))
 		}
+		(Eff::Bytes, Val::Bytes(b)) if BYTES_AS_UNSIZED_SEQ.with(|x| x.get()) => Call::Seq(None, b.iter().map(|x| Call::U8(*x)).collect()),
 		_ => canonical_call(rs, id, v),
 	}
 }
@@ -150,8 +151,17 @@ fn permutations(n: usize, rng: &mut Rng) -> Vec<Vec<usize>> {
 	}
 }
 
+thread_local! {
+	/// per case: byte strings are presented as sequences of u8 of unknown length (what transcoding or `collect_seq` over
+	/// a filtered iterator does), with `allow_slow_sequence_to_bytes` switched on
+	static BYTES_AS_UNSIZED_SEQ: std::cell::Cell<bool> = std::cell::Cell::new(false);
+}
+
 fn ser(schema: &serde_avro_fast::Schema, c: &Call) -> Result<Vec<u8>, String> {
 	let mut cfg = serde_avro_fast::ser::SerializerConfig::new(schema);
+	if BYTES_AS_UNSIZED_SEQ.with(|b| b.get()) {
+		cfg.allow_slow_sequence_to_bytes();
+	}
 	serde_avro_fast::to_datum_vec(c, &mut cfg).map_err(|e| e.to_string())
 }
 
@@ -186,6 +196,11 @@ fn record_schema(rng: &mut Rng) -> RSchema {
 pub fn run_case(ctx: &mut Ctx, case_seed: u64) {
 	let mut rng = Rng::new(case_seed);
 	let rs = record_schema(&mut rng);
+	let unsized_bytes = rng.chance(1, 3);
+	BYTES_AS_UNSIZED_SEQ.with(|b| b.set(unsized_bytes));
+	if unsized_bytes && rs.reachable().iter().any(|&i| matches!(rs.eff(i), Eff::Bytes)) {
+		ctx.count("cases_with_bytes_as_unsized_sequences");
+	}
 	let (schema, _) = make_schema(&rs, pick_via(&mut rng), &mut rng);
 	let schema = match schema {
 		Ok(s) => s,
